@@ -8,6 +8,7 @@ import vlib
 from vlib import t_vec, fq, ff, Result
 
 ID = "C12"
+HARNESS_BINS = ["vharness_custom"]
 LEAN_MODULES = ["NdInterp.Props.C12", "NdInterp.Props.RatTie", "NdInterp.Props.IntTie", "NdInterp.Props.FormulaTie.Ctl"]
 THEOREM_FILES = [("NdInterp/Props/C12.lean", "C12_"), ("NdInterp/Props/IntTie.lean", "C12_"), ("NdInterp/Props/FormulaTie/Ctl.lean", "FT_ctl_")]
 RULE = ("every word over {<,=,>} of consecutive-pair relations up to length L (quick 8, thorough 11), realised as "
@@ -247,3 +248,23 @@ def oracle(case, res):
     if res.extra != want:
         return f"class must be {want}, got {res.extra}"
     return None
+
+
+def extra(rng, tier):
+    """'such an axis can never pass builder validation' for *every* strategy: the built-in ones need two points, so an axis of a single
+    NaN (or any one-element / empty axis) is only ever judged by the monotonicity step when a user-defined strategy declares a smaller
+    minimum (seed C12-r9m1: a pairwise `a < b` test, vacuously true on fewer than two elements, in place of `monotonic_prop`).  The
+    custom-strategy scenario builds with declared minima 0..4 and axes of every length, with NaN, ties and reversals."""
+    n = gen.N(tier, 200, 5000)
+    seed = rng.randint(1, 2 ** 31)
+    out = vlib.run_sub(["custom", seed, n])
+    fails, summ = [], None
+    for l in out:
+        if l.startswith("FAIL") and ("monotonic" in l.lower() or "build" in l.lower() or "valid" in l.lower()):
+            fails.append({"line": f"vharness_custom {seed} {n}", "impl": l[:800],
+                          "required": "an axis that monotonic_prop does not classify Rising{strict:true} (NaN, fewer than two points, ties, reversals) must be rejected by build() for every strategy"})
+        elif l.startswith("SUMMARY"):
+            summ = l
+    if summ is None:
+        fails.append({"line": f"vharness_custom {seed} {n}", "impl": "no SUMMARY", "required": "the custom-strategy scenario must complete"})
+    return {"evaluations": n, "failures": fails[:20], "hist": {"custom_builder_cases": n}}
